@@ -428,6 +428,17 @@ func checkC13(c C13Case) (*Violation, []string, *caseInfo) {
 					stats.probe("operator-written-artefact-read")
 				}
 			}
+			if fl := parseArgv(p.Argv); !fl.v2 {
+				stats.probe("consumer-ran-the-v1-library")
+				if res.Code == 0 && (fl.patch || fl.translate != "") {
+					stats.probe("v1-consumer-accepted-the-artefact")
+				}
+				for _, df := range c.Disk {
+					if df.Kind == "overwrite" && (strings.HasPrefix(df.Text, "@") || strings.HasPrefix(df.Text, "^")) {
+						stats.probe("v1-consumer-met-an-operator-written-native-diff")
+					}
+				}
+			}
 			if len(artefact) > 0 {
 				info.Nontrivial = firedAny || len(c.Disk) > 0 || len(c.Skew) > 0
 			}
@@ -638,6 +649,7 @@ func genCase13(c *Chooser) C13Case {
 	// sometimes the artefact is not what a producer wrote but what an operator
 	// wrote or edited by hand (the native format is meant to be editable):
 	// structurally valid hunks with arbitrary paths, context and metadata
+	operatorNative := false
 	if c.Chance(1, 6) {
 		text := handWritten(c)
 		switch c.Int(4) {
@@ -645,6 +657,8 @@ func genCase13(c *Chooser) C13Case {
 			text = handWrittenMerge(c)
 		case 2:
 			text = handWrittenPatch(c)
+		default:
+			operatorNative = true
 		}
 		cs.Disk = append(cs.Disk, DiskFault{After: np - 1, Kind: "overwrite", File: "p", Text: text})
 	}
@@ -685,7 +699,7 @@ func genCase13(c *Chooser) C13Case {
 		if iv.v1 {
 			cs.Skew = append(cs.Skew, "version")
 		}
-	} else if !civ.v1 && c.Chance(1, 12) {
+	} else if !civ.v1 && (c.Chance(1, 12) || operatorNative && c.Chance(1, 4)) {
 		civ.v1, civ.bin = true, "top"
 		if !iv.v1 {
 			cs.Skew = append(cs.Skew, "version")
@@ -917,11 +931,19 @@ func shrink13(raw json.RawMessage) []json.RawMessage {
 // huge, context markers, merge metadata, several values per hunk.
 func handWritten(c *Chooser) string {
 	var sb strings.Builder
-	elems := []string{`"a"`, `"b"`, `"id"`, `0`, `1`, `2`, `-1`, `-3`, `1.5`, `1e30`, `{}`, `[]`, `{"id":1}`, `{"id":[1]}`, `[{"id":1}]`, `[1]`, `[[]]`, `""`, `true`, `null`}
+	elems := []string{`"a"`, `"b"`, `"id"`, `0`, `1`, `2`, `-1`, `-3`, `1.5`, `1e30`, `{}`, `[]`, `{"id":1}`, `{"id":[1]}`, `[{"id":1}]`, `[1]`, `[[]]`, `""`, `true`, `null`,
+		// the v1 dialect: metadata travels inside the path, as arrays of strings in front of an element
+		`["set"]`, `["multiset"]`, `["MERGE"]`, `["setkeys=id"]`, `["set","setkeys=id"]`, `["setkeys=id"],["setkeys=id"]`, `["multiset"],["set"]`, `["nope"]`, `[""]`, `["set"],{}`, `["multiset"],[]`, `["set","setkeys=id"],{"id":1}`}
+	v1 := c.Chance(1, 3)
+	if v1 {
+		// written for (or by) the v1 library: mostly metadata-carrying
+		// elements; that dialect has no ^ lines and no context lines
+		elems = append(elems[20:], `"a"`, `0`, `{}`, `[]`, `{"id":1}`, `-1`)
+	}
 	vals := []string{`1`, `"x"`, `{}`, `[]`, `{"a":{"b":1}}`, `[1,2]`, `null`, `true`, `{"id":1,"a":2}`}
 	var prevPath []string
 	for h := 0; h < c.Range(1, 4); h++ {
-		if c.Chance(1, 3) {
+		if c.Chance(1, 3) && !(v1 && c.Chance(9, 10)) {
 			sb.WriteString([]string{"^ {\"Merge\":true}\n", "^ {\"Merge\":false}\n", "^ {}\n", "^ {\"Merge\":1}\n"}[c.Pick(6, 2, 1, 1)])
 		}
 		var path []string
@@ -935,7 +957,7 @@ func handWritten(c *Chooser) string {
 		}
 		prevPath = path
 		sb.WriteString("@ [" + strings.Join(path, ",") + "]\n")
-		if c.Chance(1, 3) {
+		if c.Chance(1, 3) && !(v1 && c.Chance(9, 10)) {
 			sb.WriteString([]string{"[\n", "  " + vals[c.Int(len(vals))] + "\n"}[c.Int(2)])
 		}
 		for i := 0; i < c.Int(3); i++ {
@@ -952,7 +974,7 @@ func handWritten(c *Chooser) string {
 				sb.WriteString("+ " + vals[c.Int(len(vals))] + "\n")
 			}
 		}
-		if c.Chance(1, 3) {
+		if c.Chance(1, 3) && !(v1 && c.Chance(9, 10)) {
 			sb.WriteString([]string{"]\n", "  " + vals[c.Int(len(vals))] + "\n"}[c.Int(2)])
 		}
 	}
